@@ -37,7 +37,9 @@ SqS(items, sepslot, sep) == [f |-> "sq", items |-> items, seps |-> sepslot, sep 
 \* PHP's operator precedence (lowest first), https://www.php.net/manual/en/language.operators.precedence.php (7.4)
 L == [ lor |-> 1, lxor |-> 2, land |-> 3, print |-> 4, yield |-> 5, assign |-> 6, ternary |-> 7, coalesce |-> 8,
        bor |-> 9, band |-> 10, bitor |-> 11, bitxor |-> 12, bitand |-> 13, eq |-> 14, cmp |-> 15, shift |-> 16,
-       add |-> 17, mul |-> 18, not |-> 19, instof |-> 20, unary |-> 21, pow |-> 22, clone |-> 23, atom |-> 30 ]
+       add |-> 17, mul |-> 18, not |-> 19, instof |-> 20, unary |-> 21, pow |-> 22, clone |-> 23, incdec |-> 24, atom |-> 30 ]
+\* (++ and -- take a VARIABLE, so an increment is complete wherever it stands: "--$a ** 2" is (--$a) ** 2 although ** binds tighter
+\* than the unary operators; hence their own level above pow and clone)
 
 \* fam: "both" | "7" (PHP 7-only syntax: PHP 5 must reject it) | "73" (needs the flexible heredoc rule of >= 7.3) | "pre73" (valid only BEFORE 7.3) | "7g" (accepted by both, but PHP 5 groups it
 \* differently: uniform variable syntax) | "5" (PHP 5 only)
@@ -92,10 +94,10 @@ Unaries == <<
   V("ExprErrorSuppress", "ExprErrorSuppress", {"expr"}, "both", L.unary, FALSE, [AtTkn |-> Tk("@"), Expr |-> Ch("expr", L.unary)]),
   Cast("ExprCastArray", "CAST:array"), Cast("ExprCastBool", "CAST:bool"), Cast("ExprCastDouble", "CAST:double"), Cast("ExprCastInt", "CAST:int"),
   Cast("ExprCastObject", "CAST:object"), Cast("ExprCastString", "CAST:string"), Cast("ExprCastUnset", "CAST:unset"),
-  V("ExprPreInc", "ExprPreInc", {"expr"}, "both", L.unary, FALSE, [IncTkn |-> Tk("++"), Var |-> Ch("var", 0)]),
-  V("ExprPreDec", "ExprPreDec", {"expr"}, "both", L.unary, FALSE, [DecTkn |-> Tk("--"), Var |-> Ch("var", 0)]),
-  V("ExprPostInc", "ExprPostInc", {"expr"}, "both", L.unary, FALSE, [Var |-> Ch("var", 0), IncTkn |-> Tk("++")]),
-  V("ExprPostDec", "ExprPostDec", {"expr"}, "both", L.unary, FALSE, [Var |-> Ch("var", 0), DecTkn |-> Tk("--")]),
+  V("ExprPreInc", "ExprPreInc", {"expr"}, "both", L.incdec, FALSE, [IncTkn |-> Tk("++"), Var |-> Ch("var", 0)]),
+  V("ExprPreDec", "ExprPreDec", {"expr"}, "both", L.incdec, FALSE, [DecTkn |-> Tk("--"), Var |-> Ch("var", 0)]),
+  V("ExprPostInc", "ExprPostInc", {"expr"}, "both", L.incdec, FALSE, [Var |-> Ch("var", 0), IncTkn |-> Tk("++")]),
+  V("ExprPostDec", "ExprPostDec", {"expr"}, "both", L.incdec, FALSE, [Var |-> Ch("var", 0), DecTkn |-> Tk("--")]),
   V("ExprClone", "ExprClone", {"expr"}, "both", L.clone, FALSE, [CloneTkn |-> Tk("clone"), Expr |-> Ch("expr", L.clone)]),
   \* include/require take everything to their right as operand ("include 'a' or die()" includes ('a' or die()))
   V("ExprPrint", "ExprPrint", {"expr"}, "both", L.print, FALSE, [PrintTkn |-> Tk("print"), Expr |-> Ch("expr", L.print)]),
